@@ -70,12 +70,15 @@ struct Case {
     mode: String,
     /// for exhaustive partial offsets (thorough)
     offset: Option<usize>,
+    /// cleanup_server_connections (default true). With false the user opted out of the session-state
+    /// reset, but an open transaction, a COPY in progress or an unread reply must still never be handed on
+    cleanup: bool,
 }
 
 impl Case {
     fn name(&self) -> String {
         format!(
-            "prefix={}|stop={}{}|cache={}|mode={}",
+            "prefix={}|stop={}{}|cache={}|mode={}{}",
             self.prefix,
             self.stop,
             match self.offset {
@@ -83,7 +86,8 @@ impl Case {
                 None => String::new(),
             },
             if self.cache { "on" } else { "off" },
-            self.mode
+            self.mode,
+            if self.cleanup { "" } else { "|cleanup=off" }
         )
     }
 }
@@ -134,6 +138,9 @@ fn run_case(case: &Case, rep: &Report) -> Result<(), String> {
     }
     if case.cache {
         cfg.pools[0].set("prepared_statements_cache_size", "8");
+    }
+    if !case.cleanup {
+        cfg.pools[0].set("cleanup_server_connections", "false");
     }
     if case.stop.starts_with("statement_timeout") {
         cfg.pools[0].users[0].extra.push("statement_timeout = 150".into());
@@ -398,6 +405,9 @@ fn run_case(case: &Case, rep: &Report) -> Result<(), String> {
                 handed_over = true;
                 rep.count("handovers_observed", 1);
                 for comp in dirty_components(state, case.cache) {
+                    if !case.cleanup && !(comp.starts_with("txn") || comp == "copy_in") {
+                        continue; // session state is deliberately not reset with cleanup off
+                    }
                     rep.violation(
                         &format!("C02|{}|dirty={}", case.name(), comp),
                         &format!(
@@ -510,7 +520,7 @@ fn generic_leg(rep: &Report, n: usize) {
                 {
                     rep.count("handovers_observed", 1);
                     rep.count("generic_handovers", 1);
-                    for comp in dirty_components(state, false) {
+                    for comp in dirty_components(state, r.params.cache > 0) {
                         let how = exits.get(prev).cloned().unwrap_or_default();
                         rep.violation(
                             &format!("C02|generic|mode={}|prev_exit={}|dirty={}", r.params.mode, how, comp),
@@ -532,7 +542,7 @@ pub fn run(tier: &str) -> i32 {
         "C02",
         tier,
         "exploration",
-        "case = (state-creating prefix of client A) x (way A stops, incl. byte offsets inside its next message, malformed messages, timeouts) x (statement cache on/off) x (pool mode); pool_size=1; oracle = the mock backend's own session state at the first message of the next client + that client's probe reply; plus every hand-over of a generated multi-client workload; distinct = distinct cases",
+        "case = (state-creating prefix of client A) x (way A stops, incl. byte offsets inside its next message, malformed messages, timeouts) x (statement cache on/off) x (pool mode), transaction/COPY prefixes also with cleanup_server_connections = false; pool_size=1; oracle = the mock backend's own session state at the first message of the next client + that client's probe reply; plus every hand-over of a generated multi-client workload; distinct = distinct cases",
     );
     rep.assume("mock backend's session-state rules are PostgreSQL's (DESIGN.md 2.2); SET inside a transaction block is excluded (property says 'outside a transaction')");
     rep.assume("tracked parameters (client_encoding, DateStyle, TimeZone, standard_conforming_strings, application_name) are judged by C12, not here");
@@ -548,8 +558,13 @@ pub fn run(tier: &str) -> i32 {
                         cache,
                         mode: mode.to_string(),
                         offset: None,
+                        cleanup: true,
                     };
                     if applicable(&c) {
+                        // transaction / COPY prefixes also with cleanup_server_connections = false
+                        if !cache && mode == "transaction" && (in_txn_prefix(p) || p.contains("copy")) {
+                            cases.push(Case { cleanup: false, ..c.clone() });
+                        }
                         cases.push(c);
                     }
                 }
@@ -567,6 +582,7 @@ pub fn run(tier: &str) -> i32 {
                         cache: false,
                         mode: mode.into(),
                         offset: Some(off),
+                        cleanup: true,
                     });
                 }
             }
